@@ -225,6 +225,7 @@ REFACTORINGS = [
     ('refactoring R12: 30 modules rewritten at once (4000-line patch: internals renamed, inlined, split, moved between modules)', 'refactor_r12', ALL),
     # third wave
     ('refactoring R13: rename package - recursion to explicit stacks, isinstance chains to dispatch tables walked by MRO, classes split into mixins, private attributes renamed', 'refactor_r13', ALL),
+    ('refactoring R15: printers - token separation as a table, precedence levels as a table with one binds_looser predicate, operator visitors generated from tables, shared base class for nested literals, private attributes renamed', 'refactor_r15', ALL),
     ('refactoring R16: command line module - parser built from tables, os.walk replaced by os.scandir, per-file processing in a class, streams through variables', 'refactor_r16', ALL),
 ]
 
